@@ -24,11 +24,13 @@ def leaf_types(s, path="", out=None):
     return out
 
 
-def make_case(cid, s, flags=()):
+def make_case(cid, s, flags=(), comp=None):
     oracle = ('package cs\n\nimport "verifcases/vo"\n\nfunc VerifObserve(emit func(string, string)) {\n'
               '\tvo.ObserveCtor(emit, New%s)\n}\n' % newgen.instantiate(s))
-    args = ["new"] + list(flags) + ["-type=" + s["name"]]
-    return {"id": cid, "spec": s, "files": newgen.case_files("cs", [s], cid),
+    cdecls, cnames = comp or ([], [])
+    # multi-type run: the companion types come first; what they carry must not reach T
+    args = ["new"] + list(flags) + ["-type=" + ",".join(cnames + [s["name"]])]
+    return {"id": cid, "spec": s, "files": newgen.case_files("cs", cdecls + [s], cid),
             "runs": [{"args": args}], "oracle": {".": oracle},
             "sexp": newgen.ctor_sexp(cid, s), "cmd": "shoot " + " ".join(args),
             "types": leaf_types(s)}
@@ -69,7 +71,8 @@ def gen_cases(ctx):
             # generic struct with a constraint that is not a plain identifier (repaired by f987a47; asserted)
             s["tparams"] = ctx.rng.choice([[(["K"], "cmp.Ordered")], [(["K"], "~int | ~string"), (["V"], "any")],
                                            [(["V"], "any"), (["S"], "fmt.Stringer")]])
-        cases.append(make_case("n%d" % i, s))
+        comp = newgen.companion(ctx.rng, s, "n%d" % i) if ctx.rng.random() < 0.3 else None
+        cases.append(make_case("n%d" % i, s, comp=comp))
     return cases
 
 
